@@ -123,7 +123,7 @@ type Interp struct {
 	atomFn          map[int]string
 	atomArgs        map[int][2]int
 	orderCache      map[[2]string]uint8 // termOrder.static
-	Precise         bool // byte-precise library models (interp_precise.go)
+	Precise         bool                // byte-precise library models (interp_precise.go)
 	preciseKind     map[int]string
 	curState        *State
 	MaxIter         int          // >0: bound on the iterations of a loop whose own condition is decided (default 5000)
@@ -132,6 +132,7 @@ type Interp struct {
 	Intervals       bool         // propagate float intervals through arithmetic (interp_intervals.go)
 	NonNeg          map[int]bool // atoms known to be >= 0 (answers of distance oracles)
 	Positive        map[int]bool // atoms taken to be > 0 (a stated restriction of the rule that sets them)
+	SplitBools      bool         // partition the path on an undecided comparison that feeds a boolean == / != (so that it becomes a fact)
 	Infinitesimal   map[int]bool // positive atoms smaller than every positive quantity built from the others (one-ulp nudges)
 	inputLen        int
 }
@@ -861,6 +862,35 @@ func (it *Interp) exec(s *State, fr *Frame, in ssa.Instruction) {
 		if call, ok := x.(*ssa.Call); ok {
 			it.call(s, fr, call)
 			return
+		}
+		if it.SplitBools && it.Terms {
+			// (a > y) != (b > y): the truth of each recorded comparison is needed as a fact of the path, so the
+			// path is partitioned on an undecided operand before the operator is applied
+			if bo, ok := x.(*ssa.BinOp); ok && (bo.Op == token.EQL || bo.Op == token.NEQ || bo.Op == token.XOR) {
+				for _, opnd := range []ssa.Value{bo.X, bo.Y} {
+					if _, isConst := opnd.(*ssa.Const); isConst {
+						continue
+					}
+					c, ok := fr.env[opnd].(BoolV)
+					if !ok || !(c.T && c.F) || c.Src == nil {
+						continue
+					}
+					o := s.clone()
+					ofr := o.top()
+					ff := *c.Src
+					ff.Taken = false != c.Neg
+					o.trail = append(o.trail, trailEntry{Pos: it.p.InstrPos(bo), Desc: it.branchDesc(bo, opnd, false), Opq: c.Opq, Der: c.Der, Fact: &ff})
+					it.recordRel(o, o.trail[len(o.trail)-1].Fact)
+					ofr.env[opnd] = boolOf(false)
+					it.work = append(it.work, o)
+					ft := *c.Src
+					ft.Taken = true != c.Neg
+					s.trail = append(s.trail, trailEntry{Pos: it.p.InstrPos(bo), Desc: it.branchDesc(bo, opnd, true), Opq: c.Opq, Der: c.Der, Fact: &ft})
+					it.recordRel(s, s.trail[len(s.trail)-1].Fact)
+					fr.env[opnd] = boolOf(true)
+					return // both halves apply the operator again with the operand decided
+				}
+			}
 		}
 		v := it.eval(s, fr, x)
 		fr.env[x] = v
